@@ -28,7 +28,7 @@ fn expected(class: &str) -> Res {
         "one-trailing-byte" | "announce-with-payload" => Res::Err(ErrKind::MalformedPacket),
         "other-destination" | "stale-timer" => Res::Ok,
         "reuse-when-not-defunct" => Res::Err(ErrKind::NotUndead),
-        "same-identity" => Res::Err(ErrKind::SameIdentity),
+        "same-identity" | "same-identity-other-value" => Res::Err(ErrKind::SameIdentity),
         "invalid-config" => Res::Err(ErrKind::InvalidConfig),
         "empty-broadcast" => Res::Err(ErrKind::MalformedPacket),
         "too-big-broadcast" => Res::Err(ErrKind::DataTooBig),
@@ -36,7 +36,7 @@ fn expected(class: &str) -> Res {
     }
 }
 
-pub const CLASSES: [&str; 15] = [
+pub const CLASSES: [&str; 16] = [
     "oversize",
     "bad-header",
     "bad-member-list",
@@ -52,6 +52,7 @@ pub const CLASSES: [&str; 15] = [
     "empty-broadcast",
     "too-big-broadcast",
     "other-destination-with-payload",
+    "same-identity-other-value",
 ];
 
 /// Build a rejected input of a random class for the instance in its current state.
@@ -154,6 +155,8 @@ fn gen_reject(d: &Driver, s: &mut Stream) -> Option<(Input, String)> {
             Input::ReuseDown
         }
         "same-identity" => Input::ChangeIdentity(own),
+        // an equal identity value that differs in what equality does not cover (here: it cannot renew itself)
+        "same-identity-other-value" => Input::ChangeIdentity(own.with_shade(1)),
         "invalid-config" => {
             let mut c = cfg.clone();
             match s.below(5) {
